@@ -206,21 +206,22 @@ def check_interop(h):
                 req.status == 200 and req.resp_body and \
                 req.resp_body.count(b'\x1e') + 1 > 16 and \
                 'sid=' in req.query and req.seq_resp is not None:
-            if c_disc and c_disc[0]['arg'] == 'transport error' and \
-                    req.t_resp - EPS <= c_disc[0]['t'] <= \
-                    req.t_resp + 2 * rt + max(I, T) + 5 + 1.0 and any(
-                        'Unexpected packet from server' in str(m[3])
-                        for m in h.cw.logs):
+            # (the client refuses the payload the moment it arrives; when it
+            # gets round to reporting 'transport error' - or whether the
+            # application's own disconnect() comes first - is secondary)
+            if any('Unexpected packet from server' in str(m[3]) and
+                   abs(m[1] - req.t_resp) <= EPS for m in h.cw.logs):
                 out.append(V('any-burst-size',
                              '%s|server-burst-over-16-aborts-client' % pair,
                              'the server answered poll %d with %d packets '
                              '(everything queued, as it should); the client '
                              'refused the payload (max_decode_packets) and '
                              'dropped the healthy connection with '
-                             '\'transport error\' at t=%.4f; the messages '
-                             'in it were lost' % (
+                             '\'transport error\' (disconnect seen at %s); '
+                             'the messages in it were lost' % (
                                  req.rid, req.resp_body.count(b'\x1e') + 1,
-                                 c_disc[0]['t'])))
+                                 ('t=%.4f' % c_disc[0]['t']) if c_disc
+                                 else 'no time')))
                 return out
     # ---- adopted heartbeat settings ---------------------------------------------
     ce = c_conn[0]
